@@ -387,6 +387,19 @@ class Canon:
                 if c is not None:
                     c[st.targets[0].id] = c.get(st.targets[0].id, 0) + 1
             return self.stmt(loc(ast.If(test=e.test, body=[a], orelse=[b]), st), outer)
+        # S10: `a, *b = xs` (xs a plain name) -> `a = xs[0]`; `b = xs[1:]`
+        if on("S10") and isinstance(st, ast.Assign) and len(st.targets) == 1 and isinstance(st.targets[0], ast.Tuple) and len(st.targets[0].elts) == 2 \
+                and isinstance(st.targets[0].elts[0], ast.Name) and isinstance(st.targets[0].elts[1], ast.Starred) and isinstance(st.targets[0].elts[1].value, ast.Name) \
+                and isinstance(st.value, ast.Name):
+            a, b = st.targets[0].elts[0], st.targets[0].elts[1].value
+            first = loc(ast.Assign(targets=[a], value=loc(ast.Subscript(value=loc(ast.Name(id=st.value.id, ctx=ast.Load()), st), slice=loc(ast.Constant(value=0), st), ctx=ast.Load()), st)), st)
+            rest = loc(ast.Assign(targets=[b], value=loc(ast.Subscript(value=loc(ast.Name(id=st.value.id, ctx=ast.Load()), st),
+                                                                       slice=loc(ast.Slice(lower=loc(ast.Constant(value=1), st), upper=None, step=None), st), ctx=ast.Load()), st)), st)
+            if outer is not None:
+                c = self.counts.get(id(outer))
+                if c is not None:
+                    c[st.value.id] = c.get(st.value.id, 0) + 1
+            return self.stmt(first, outer) + self.stmt(rest, outer)
         # S7: `_, x = pair()` -> `x = pair()[1]` for the library calls that return a pair
         if on("S7") and isinstance(st, ast.Assign) and len(st.targets) == 1 and isinstance(st.targets[0], ast.Tuple) and len(st.targets[0].elts) == 2 \
                 and isinstance(st.value, ast.Call) and (pysrc_dotted(st.value.func) or "") in ("os.path.splitext", "os.path.split", "divmod", "render_quoted_form"):
